@@ -5,7 +5,7 @@
    Methods are independent of each other in the specification (each has its own definition list), so their order is
    immaterial by construction.  C01-C03 tie the specification to update's tables; once C01_dispatch is assembled the
    same statement holds of `resolve (compile R)`. *)
-From Y2 Require Import Model.Registry Spec.Dispatch Proofs.SpecProofs.
+From Y2 Require Import Model.Registry Model.Compile Spec.Dispatch Proofs.Interfaces Proofs.SpecProofs Proofs.ResolveProofs Proofs.PermCompose.
 From Coq Require Import Permutation.
 
 Theorem C06_dispatch_perm : forall R R',
@@ -29,6 +29,38 @@ Theorem C06_anc_perm : forall R R',
   Permutation (r_classes R) (r_classes R') -> r_alias R = r_alias R' -> forall b d, anc R b d <-> anc R' b d.
 Proof. exact anc_perm. Qed.
 Print Assumptions C06_anc_perm.
+
+(* On what update installs: R' holds the same class registrations in another order; method m' of R' (at any position
+   mi' of the method catalog) is method m of R with its definitions registered in another order sigma.  Then every legal
+   call reads, from the tables of the two updates, words that designate the same definition (through sigma) or the same
+   error — whether a call is an error, and which one, does not depend on the order either. *)
+Theorem C06_update_order_independent : forall R R' C C' mi mi' m m' sigma args,
+  wf_registry R -> wf_registry R' -> compile R = Ok C -> compile R' = Ok C' ->
+  Permutation (r_classes R) (r_classes R') -> r_alias R = r_alias R' ->
+  nth_error (r_methods R) mi = Some m -> nth_error (r_methods R') mi' = Some m' ->
+  meth_vp R' m' = meth_vp R m -> m_shape m' = m_shape m ->
+  meth_defs R' m' = permute_defs (meth_defs R m) sigma -> Permutation sigma (seq 0 (length (meth_defs R m))) ->
+  legal R m args ->
+  exists cs cs' o o',
+    map (key (o_lat C)) cs = args /\ map (key (o_lat C')) cs' = args /\
+    resolve C mi (actuals_of C (m_shape m) cs) = Ok (word_of_outcome mi o) /\
+    resolve C' mi' (actuals_of C' (m_shape m') cs') = Ok (word_of_outcome mi' o') /\
+    o = map_outcome (fun i' => nth i' sigma 0) o'.
+Proof. exact dispatch_order_independent. Qed.
+Print Assumptions C06_update_order_independent.
+
+Theorem C06_next_order_independent : forall R R' C C' mi mi' m m' sigma k',
+  wf_registry R -> wf_registry R' -> compile R = Ok C -> compile R' = Ok C' ->
+  Permutation (r_classes R) (r_classes R') -> r_alias R = r_alias R' ->
+  nth_error (r_methods R) mi = Some m -> nth_error (r_methods R') mi' = Some m' ->
+  meth_defs R' m' = permute_defs (meth_defs R m) sigma -> Permutation sigma (seq 0 (length (meth_defs R m))) ->
+  k' < length (m_defs m) -> length (m_defs m') = length (m_defs m) -> nth k' sigma 0 < length (m_defs m) ->
+  exists o o',
+    nth (nth k' sigma 0) (t_nexts (nth mi (o_tables C) (mk_ct [] [] [] (mk_rep 0 0 0 0 0 0) []))) CNi = cell_of_outcome o /\
+    nth k' (t_nexts (nth mi' (o_tables C') (mk_ct [] [] [] (mk_rep 0 0 0 0 0 0) []))) CNi = cell_of_outcome o' /\
+    o = map_outcome (fun i' => nth i' sigma 0) o'.
+Proof. exact next_order_independent. Qed.
+Print Assumptions C06_next_order_independent.
 
 (* non-vacuity: the probe P1 definitions in their two orders *)
 Example C06_example :
